@@ -84,6 +84,7 @@ def main():
             if _tl.ACTIVITY[0] != seen[0]:
                 seen[0] = _tl.ACTIVITY[0]
                 signal.setitimer(signal.ITIMER_REAL, case_timeout)
+                signal.setitimer(signal.ITIMER_VIRTUAL, hard_timeout)
                 return
             try:
                 faulthandler.dump_traceback()
@@ -93,6 +94,12 @@ def main():
         import signal
 
         signal.signal(signal.SIGALRM, on_alarm)
+        # A loop inside compiled code never gets back to the interpreter, so the handler above never runs: a second
+        # timer on the process's own CPU time, with the DEFAULT disposition (the kernel kills the process, no
+        # Python needed), is re-armed whenever Python-level code shows it is alive. The parent reads death by
+        # SIGVTALRM like exit 17.
+        hard_timeout = 2.5 * case_timeout
+        signal.signal(signal.SIGVTALRM, signal.SIG_DFL)
 
         def progress(i):
             if prog_path:
@@ -101,9 +108,11 @@ def main():
             _tl.tick()
             seen[0] = _tl.ACTIVITY[0]
             signal.setitimer(signal.ITIMER_REAL, case_timeout)
+            signal.setitimer(signal.ITIMER_VIRTUAL, hard_timeout)
 
         r = mod.run_unit(unit, progress)
         signal.setitimer(signal.ITIMER_REAL, 0)
+        signal.setitimer(signal.ITIMER_VIRTUAL, 0)
         for k in res:
             if k in r:
                 res[k] = r[k]
